@@ -17,14 +17,16 @@ RULE = ("Engine F: generated factories of all topologies incl. finite inputs run
         "holds no live space request unless it holds a finished item; at quiescence no granted-unused token exists. "
         "Non-trivial: a node with >= 2 in- or out-edges under FIRST_AVAILABLE had two of its requests granted in the same "
         "instant at least once (so a granted request had to be cancelled).")
+RULE += (" Two in ten flow-shaped factories also contain rework loops (a machine feeding itself or a machine of an earlier layer through a "
+         "Buffer / Fleet edge with a strictly positive delay / transit time, so no zero-time cycle exists); machine oracles work per visit, not per item.")
 ASSUMPTIONS = ["liveness is decided only in its bounded form: not stranded at the end of an instant / at quiescence",
                "ROUND_ROBIN / constant / callable policies legitimately leave items waiting on the edges they did not choose"]
 
-PROFILE = {"conveyors": True, "conveyor_to_sink": True, "pack": 2, "finite": 5}
+PROFILE = {"cycles": 2, "conveyors": True, "conveyor_to_sink": True, "pack": 2, "finite": 5}
 
 
 def examples(tier):
-    return 4000 if tier == "quick" else 80000
+    return 8000 if tier == "quick" else 240000
 
 
 def strategy(tier):
